@@ -1,4 +1,5 @@
 import Bw.Pipeline
+import Bw.Lemmas.MainFlow
 import Bw.Lemmas.Merge
 /-! # C11 — exit status and report follow the diagnostics and their severity -/
 namespace Bw.Props.C11
@@ -172,5 +173,24 @@ theorem no_empty_entry (re : Regex) (oracle : AsyncOracle) (ctx : List FileCtx) 
 /-- non-vacuity: two validators reporting on the same file and on different files -/
 example : held (runMerge [[(['a'], [⟨"keep-sorted", 1, 1, 1, 2, 1, []⟩])], [(['a'], [⟨"line-count", 1, 1, 1, 9, 2, []⟩]), (['b'], [⟨"line-count", 3, 1, 3, 9, 1, []⟩])]] []) ['a']
     = [⟨"keep-sorted", 1, 1, 1, 2, 1, []⟩, ⟨"line-count", 1, 1, 1, 9, 2, []⟩] := by decide
+
+/-! ### the sequencing of `main` (model `Bw.MainFlow`) -/
+
+/-- `list` exits 0 and prints the blocks; it does not depend on the regex engine, the scripts or the endpoint (no validator runs) -/
+theorem list_exits_zero (cfg : Tag.Cfg) (re : Regex) (oracle : AsyncOracle) (rawE en dis : List Text) (inp : MainFlow.Input)
+    (r : List (Text × List ListReport.Entry)) (h : MainFlow.run cfg re oracle rawE en dis true inp = .listed r) :
+    MainFlow.exitStatus (MainFlow.run cfg re oracle rawE en dis true inp) = 0 :=
+  MainFlow.list_exits_zero cfg re oracle rawE en dis inp r h
+
+theorem list_runs_no_validator (cfg : Tag.Cfg) (re re' : Regex) (oracle oracle' : AsyncOracle) (rawE en dis : List Text)
+    (inp : MainFlow.Input) :
+    MainFlow.run cfg re oracle rawE en dis true inp = MainFlow.run cfg re' oracle' rawE en dis true inp :=
+  MainFlow.list_independent_of_validators cfg re re' oracle oracle' rawE en dis inp
+
+/-- the exit status of a validation run is decided by the severities in the merged report alone -/
+theorem validation_exit_from_report (cfg : Tag.Cfg) (re : Regex) (oracle : AsyncOracle) (rawE en dis : List Text)
+    (inp : MainFlow.Input) (m : Merge.FileMap) (x : Nat)
+    (h : MainFlow.run cfg re oracle rawE en dis false inp = .validated m x) :
+    x = (if Merge.hasErrorSeverity m then 1 else 0) := MainFlow.validate_exit cfg re oracle rawE en dis inp m x h
 
 end Bw.Props.C11
